@@ -29,7 +29,8 @@ MonInitVal ==
     reqs |-> <<>>,               \* requests / caller decisions: [kind, pc, st, res, out]
     runs |-> [o \in 1..MaxRuns |-> NoRunMon],
     nruns |-> 0,
-    dev |-> [d \in Devices |-> [stg |-> 0, dirty |-> FALSE, subs |-> 0, lost |-> 0]],
+    dev |-> [d \in Devices |-> [stg |-> 0, dirty |-> FALSE, subs |-> 0, lost |-> 0,
+                                  fly |-> FALSE]],   \* a flyer: kicked off and no collection attempted since (C06)
     rew |-> 1,                   \* 1 + number of rewinds (resume / suspension release) so far
     term |-> {},                 \* accepted terminating requests in this call chain
     termLate |-> {},             \* ... that landed after the plan had already ended (post-plan window)
@@ -103,7 +104,8 @@ ExpectedResp(pm) ==
     [] pm.cmd \in {"open_run", "close_run"} -> {"str"}
     [] pm.cmd \in {"create", "save", "drop", "checkpoint", "clear_checkpoint", "null", "sleep", "monitor", "unmonitor", "pause", "stop"} -> {"None"}
     [] pm.cmd = "read" -> IF pm.obj \in DOMAIN ReadVal THEN {ReadVal[pm.obj]} ELSE {}
-    [] pm.cmd \in {"set", "trigger"} -> {"status"}
+    [] pm.cmd \in {"set", "trigger", "kickoff", "complete"} -> {"status"}
+    [] pm.cmd = "collect" -> IF pm.obj \in Flyers THEN {"seq:" \o ToString(FlyN[pm.obj])} ELSE {}
     [] pm.cmd = "wait" -> {"bool:True", "bool:False"}
     [] pm.cmd \in {"stage", "unstage"} -> {"seq:0", "seq:1"}
     [] pm.cmd = "rewindable" -> {"bool:True", "bool:False"}
@@ -143,7 +145,7 @@ UpdDoc(m, e) ==
                 m4 == IF StreamClass(stream) = "bundle" /\ m.curRun \in RunKeys THEN [m3 EXCEPT !.gotEvent = TRUE] ELSE m3
             IN [m4 EXCEPT !.runs[ord].maxseq[stream] = IF seq > mx THEN seq ELSE mx,
                           !.runs[ord].next[stream] = seq + 1,
-                          !.runs[ord].since[stream] = IF m.curCmd = "save" /\ m.rewFlag /\ m.ckpt THEN @ + 1 ELSE @,
+                          !.runs[ord].since[stream] = IF m.curCmd \in {"save", "collect"} /\ m.rewFlag /\ m.ckpt THEN @ + 1 ELSE @,
                           !.runs[ord].rewAtLast[stream] = m.rew]
        ELSE IF name = "stop" THEN
             [m EXCEPT !.runs[ord].stopped = 1, !.runs[ord].status = status,
@@ -165,7 +167,8 @@ UpdDev(m, e) ==
   ELSE IF e[4] = "raise" THEN
        \* (a set() that raises may already have started the motion: the device counts as set -- it must be stopped -- C06)
        [m EXCEPT !.faulty = TRUE, !.devErrPending = TRUE, !.replaying = FALSE, !.expect = <<>>, !.c04off = TRUE,
-                 !.dev[d].dirty = (@ \/ op = "set"), !.movedEver = IF op = "set" THEN @ \cup {d} ELSE @]
+                 !.dev[d].dirty = (@ \/ op = "set"), !.movedEver = IF op = "set" THEN @ \cup {d} ELSE @,
+                 !.dev[d].fly = IF op = "collect" THEN FALSE ELSE @]       \* (a collection that fails has been attempted)
   ELSE CASE op = "stage" -> [m EXCEPT !.dev[d].stg = @ + 1]
          [] op = "read" ->
               IF m.curRun \in RunKeys /\ m.bundle[m.curRun].open
@@ -183,6 +186,8 @@ UpdDev(m, e) ==
          [] op = "unstage" -> [m EXCEPT !.dev[d].stg = IF @ > 0 THEN @ - 1 ELSE 0]
          [] op = "set" -> [m EXCEPT !.dev[d].dirty = TRUE, !.movedEver = @ \cup {d}]
          [] op = "stop" -> [m EXCEPT !.dev[d].dirty = FALSE, !.suspStopDue = @ \ {d}]
+         [] op = "kickoff" -> [m EXCEPT !.dev[d].fly = TRUE]
+         [] op = "collect" -> [m EXCEPT !.dev[d].fly = FALSE]
          [] op = "subscribe" -> [m EXCEPT !.dev[d].subs = @ + 1]
          [] op = "clear_sub" -> [m EXCEPT !.dev[d].subs = IF @ > 0 THEN @ - 1 ELSE 0]
          [] op = "update" ->
@@ -426,7 +431,8 @@ UpdRet(m, e, s2) ==
                LET a == ViolIf(m2, ~allStopped, "C01:run-not-stopped-at-idle")
                    b == ViolIf(a, \E d \in Devices : m.dev[d].stg # 0, "C06:stage-unbalanced")
                    c == ViolIf(b, \E d \in Devices : m.dev[d].dirty, "C06:moved-not-stopped")
-                   dd == ViolIf(c, \E d \in Devices : m.dev[d].subs # 0, "C06:subscription-left")
+                   dc == ViolIf(c, \E d \in Devices : m.dev[d].fly, "C06:flyer-not-collected")
+                   dd == ViolIf(dc, \E d \in Devices : m.dev[d].subs # 0, "C06:subscription-left")
                    \* C02: runs closed by the engine in this call chain
                    ee == ViolIf(dd, \E o \in (m.callRuns + 1)..m.nruns :
                                       m.runs[o].engineClosed /\ m.runs[o].status \notin ExpectedStatus(m, outcome),
@@ -550,7 +556,7 @@ C05Tags == {"C05:gap:bundle", "C05:gap:monitor", "C05:gap:interruptions",
             "C05:duplicate-seq:bundle", "C05:duplicate-seq:monitor", "C05:duplicate-seq:interruptions",
             "C05:num_events:bundle", "C05:num_events:monitor", "C05:num_events:interruptions", "C05:num_events-missing", "C05:num_events-missing:monitor",
             "C05:num_events-missing:interruptions"}
-C06Tags == {"C06:stage-unbalanced", "C06:moved-not-stopped", "C06:subscription-left"}
+C06Tags == {"C06:stage-unbalanced", "C06:moved-not-stopped", "C06:subscription-left", "C06:flyer-not-collected"}
 C07Settled == {"C07:not-settled:running", "C07:not-settled:pausing", "C07:not-settled:suspending", "C07:not-settled:halting",
                "C07:not-settled:stopping", "C07:not-settled:aborting", "C07:not-settled:panicked"}
 C08Tags == {"C08:interrupted-but-idle", "C08:interrupted-but-paused", "C08:interrupted-but-running", "C08:interrupted-but-pausing",
